@@ -8,7 +8,7 @@
 (*   summary{li,mcf,start,ls,transopt,final,out,nsteps}   end{li,status}   *)
 (* Every event is one state; TLC evaluates each invariant on all of them.  *)
 (***************************************************************************)
-EXTENDS Output, SchedView, Json, IOUtils
+EXTENDS Output, Circulation, Json, IOUtils
 
 Rec == ndJsonDeserialize(IOEnv.TRACE)
 LoadIdx == {i \in DOMAIN Rec : Rec[i].ev = "load"}
@@ -79,6 +79,15 @@ P_C11_caches == IsCand => CachesOK(NetE, E.S)
 \* generating the candidates does not panic and leaves the base schedule observably unchanged
 P_C11_enum == E.ev = "enum" => (E.ok /\ ~E.panic /\ E.hb = E.ha)
 P_C11_project == E.ev # "candfail"
+
+(* ---------------- C14: the start solution is an optimum of the covering circulation ---------------- *)
+\* only for instances whose depot totals do not couple the vehicle types (load event: dec = TRUE)
+IsMcf == IsStage /\ E.label = "mcf" /\ Rec[E.li].dec
+P_C14_feasible == IsMcf => \A ty \in NetE.types : CoverFeasible(NetE, E.S, ty) /\ FlowWithinNetwork(NetE, E.S, ty)
+P_C14_optimal == IsMcf => \A ty \in NetE.types :
+   (CoverFeasible(NetE, E.S, ty) /\ FlowWithinNetwork(NetE, E.S, ty)) => CoverOptimal(NetE, E.S, ty)
+\* every flow unit is decoded into exactly one tour: formations are exactly the tours through a node
+P_C14_decoded == IsMcf => (ToursOK(NetE, E.S) /\ FormationsOK(NetE, E.S))
 
 (* ---------------- C16: the answer is the product of all stages ---------------- *)
 SameActs(N, A, B) == VehIds(A) = VehIds(B) /\ ActsOfVeh(N, A) = ActsOfVeh(N, B) /\ TypeMap(A) = TypeMap(B)
